@@ -37,7 +37,7 @@ func (r *Run) checkStringCodec(P string, tr *ssa.Function, fns []*ssa.Function, 
 		}
 	}
 	// nextChar: the parameterless closure that reports the premature end of input
-	if setErr != nil {
+	if setErr != nil || checkErr != nil {
 		for _, f := range fns {
 			if f == tr || len(f.Params) != 0 || f.Signature.Results().Len() != 1 {
 				continue
@@ -46,7 +46,7 @@ func (r *Run) checkStringCodec(P string, tr *ssa.Function, fns []*ssa.Function, 
 				continue
 			}
 			ff := r.E.Facts(f, core.Ctx{})
-			for _, c := range callsOfClosure(f, setErr) {
+			for _, c := range fixedErrCalls(f, setErr, checkErr) {
 				if core.HasFact(ff.At(c), "cmp(_ >= len(_))") {
 					next = f
 				}
@@ -180,7 +180,7 @@ func (r *Run) checkStringCodec(P string, tr *ssa.Function, fns []*ssa.Function, 
 				"otherwise well-formed pairs are rejected as 'missing surrogate', or a lone high surrogate swallows the four characters after it", "combined under next == '\\' ∧ next' == 'u'", fmt.Sprintf("distinct scanner results tested == 'u': %d (need 2, the escape character and the second u), == '\\': %d (need 1)", len(us), len(bs)))
 		}
 		// unterminated: the input ends inside the string ⇒ an error is recorded before the loop is left
-		if next != nil && setErr != nil {
+		if next != nil && (setErr != nil || checkErr != nil) {
 			okEnd, found := true, false
 			for _, blk := range str.Blocks {
 				if ff.Live != nil && !ff.Live[blk] {
